@@ -393,9 +393,11 @@ def check(run):
     run.check(ok, 'D3', 'Address.is_b64[history]' if not ok else 'history[second parse re-checks]', why, w_b64)
     # ... and a damaged text that was refused is refused again when it is presented a second time (nothing learnt from the refused attempt)
     it = mk_interp(prog)
-    orc = Oracle()
-    orc.choices, orc.widths, orc.labels = [1], [2], ['']
-    it.oracle = orc
+    # the premise of this history is fixed, not left to the order of decisions: the trailing bytes are NOT the checksum of the first 34
+    want_ = it.cmp(ast.Eq(), Y, Term('crc', K('crc16'), Rope([(K(bytes([0x11, 0])), 2), (X, 32)]), K(2)), None)
+    if not isinstance(want_, Cond):
+        raise AnalysisError('C13 history: the checksum comparison is not an undecided condition')
+    it.decided[want_.key] = not want_.pol
     outcomes = []
     for attempt in (1, 2, 3):
         try:
